@@ -672,7 +672,7 @@ pub proof fn lemma_c18_history(tr: Seq<Raw>, a: Seq<char>, i: int, j: int)
 pub open spec fn str_cursor(c: Option<String>) -> Option<Seq<u8>> { match c { Some(s) => Some(utf8(s@)), None => None } }
 
 @fn contracts/cw20-ics20/src/contract.rs list_allowed [closures: 2]
-@ensures C20.list_allowed_page
+@ensures C20.list_allowed_page C18
     r is Ok ==> ({
         let pg = page(listing(deps.storage.view(), "allow_list"@, Seq::<u8>::empty(), false), str_cursor(start_after), limit);
         r->Ok_0.allow@.len() == pg.len() && forall|i: int| 0 <= i < pg.len() ==> utf8((#[trigger] r->Ok_0.allow@[i]).contract@) == pg[i].0
